@@ -5,9 +5,11 @@
      Path::{insert_path, compare_less, is_prefix, as_string},
      FileList::{initialize, split, update_paths/verify_file_list, set_root_dir, open (frozen paths,
        duplicate check)}, File::set_range, torrent::download_add (info hash).
-   Definitions only. The model follows the code AS IT IS, including the uint64 -> uint32
-   truncation of the piece count (Bitfield::set_size_bits) and of File ranges, the "<" test on
-   the pieces string, and Path::insert_path's reversed insertion order.
+   Definitions only. The model follows the code AS IT IS, after the fix commits
+   3f25386 (piece count must fit 32 bits), ad1f0db (pieces string exactly 20 bytes per piece) and
+   732629d (all-zero info hash is an input error), including the remaining uint32 arithmetic of
+   Bitfield::set_size_bits / File::set_range (now provably exact) and Path::insert_path's
+   reversed insertion order.
 
    Input: the value tree of C07 (maps normalised: sorted, unique keys — what the std::map inside
    an Object holds) + the flag_unordered bit of b["info"]; or a magnet URI (bytes).
@@ -152,6 +154,13 @@ Definition mk_file (p : path) (off size cs : N) (pad : bool) : file :=
 (* FileList::initialize: piece count through Bitfield::set_size_bits(uint32_t) *)
 Definition size_chunks_of (total cs : N) : N := u32 (u64 (total + cs - 1) / cs).
 
+(* FileList::initialize's guards (after fix 3f25386): chunkSize == 0 -> internal_error;
+   (torrentSize + chunkSize - 1) / chunkSize > UINT32_MAX -> input_error *)
+Definition fl_initialize_check (total cs : N) : option err :=
+  if cs =? 0 then Some EInternal
+  else if two32 - 1 <? u64 (total + cs - 1) / cs then Some EInput
+  else None.
+
 (* File::set_match_depth *)
 Fixpoint match_depth (a b : path) : N :=
   match a, b with
@@ -257,13 +266,14 @@ Definition parse_multi_files (fv : value) (cs : N) : lres (list file * N * N) :=
     do r <- parse_entries l 0%Z [];
     let '(splits, total) := r in
     if adjacent_prefix (sort_paths (map (fun s => snd (fst s)) splits)) then LErr EInput
-    else if cs =? 0 then LErr EInternal                       (* FileList::initialize *)
     else
       let total := Z.to_N total in
+      match fl_initialize_check total cs with Some e => LErr e | None =>
       let r := split_files splits 0 cs in
       if negb (snd r =? u64 (0 + total)) then LErr EInternal  (* FileList::split size mismatch *)
       else if negb (verify_depths (fst r)) then LErr EInternal (* verify_file_list() 3 *)
       else LOk (fst r, total, size_chunks_of total cs)
+      end
   end.
 
 Definition parse_single_file (im : list (bytes * value)) (cs : N) : lres (list file * N * N) :=
@@ -272,14 +282,15 @@ Definition parse_single_file (im : list (bytes * value)) (cs : N) : lres (list f
   else
     do len <- (if cs =? 1 then LOk 1%Z else do lv <- get_key im k_length; as_value lv);
     if (len <? 0)%Z then LErr EInput
-    else if cs =? 0 then LErr EInternal
     else
+      let total := Z.to_N len in
+      match fl_initialize_check total cs with Some e => LErr e | None =>
       do name <- as_string nv;
       let p := path_push_back [] name in
       match p with
       | [] => LErr EInput
-      | _ => let total := Z.to_N len in
-             LOk ([mk_file p 0 total cs false], total, size_chunks_of total cs)
+      | _ => LOk ([mk_file p 0 total cs false], total, size_chunks_of total cs)
+      end
       end.
 
 (* ---------------------------------------------------------------- magnet URIs *)
@@ -318,20 +329,29 @@ Definition b32_val (c : N) : option N :=
 Definition two16 : N := 65536.
 Definition base_shift : N := 11.
 
+(* one character of value v: (byte emitted if any, new shift, new decoded) *)
+Definition b32_step (shift decoded v : N) : option N * N * N :=
+  let decoded := N.lor decoded (N.shiftl v shift) mod two16 in
+  if shift <=? 8 then (Some ((decoded / 256) mod 256), shift + 3, (decoded * 256) mod two16)
+  else (None, shift - 5, decoded).
+
+Definition b32_finish (out : bytes) (shift : N) (pos : bytes) : option (bytes * bytes) :=
+  if negb (N.of_nat (length out) =? hash_size) || negb (shift =? base_shift)
+  then None else Some (rev out, pos).
+
 Fixpoint b32_loop (pos : bytes) (out : bytes) (shift decoded : N) : option (bytes * bytes) :=
-  let finish pos := if negb (N.of_nat (length out) =? hash_size) || negb (shift =? base_shift)
-                    then None else Some (rev out, pos) in
   match pos with
-  | [] => finish []
+  | [] => b32_finish out shift []
   | c :: pos' =>
       match b32_val c with
       | Some v =>
-          let decoded := N.lor decoded (N.shiftl v shift) mod two16 in
-          if shift <=? 8 then
-            if N.of_nat (length out) =? hash_size then None
-            else b32_loop pos' ((decoded / 256) mod 256 :: out) (shift + 3) ((decoded * 256) mod two16)
-          else b32_loop pos' out (shift - 5) decoded
-      | None => if c =? ch_amp then finish pos' else None
+          match b32_step shift decoded v with
+          | (Some byte, shift', decoded') =>
+              if N.of_nat (length out) =? hash_size then None     (* too many characters *)
+              else b32_loop pos' (byte :: out) shift' decoded'
+          | (None, shift', decoded') => b32_loop pos' out shift' decoded'
+          end
+      | None => if c =? ch_amp then b32_finish out shift pos' else None
       end
   end.
 Definition parse_base32_sha1 (pos : bytes) : option (bytes * bytes) := b32_loop pos [] base_shift 0.
@@ -513,11 +533,14 @@ Definition load (b : value) (unordered : bool) : lres download :=
   if (total =? 0) && negb meta then LErr EInput else
   do pv <- get_key im k_pieces;
   do pieces <- as_string pv;
-  if N.of_nat (length pieces) / 20 <? chunks then LErr EBencode else
+  (* after fix ad1f0db: complete_hash().size() != uint64_t{20} * size_chunks() *)
+  if negb (N.of_nat (length pieces) =? u64 (20 * chunks)) then LErr EBencode else
   (* download_add *)
   let ih := if meta then pieces else H (enc info_v) in
-  (* DownloadWrapper::initialize -> DownloadMain::post_initialize -> tracker::Manager::add_controller:
-     internal_error on the all-zero hash *)
+  (* after fix 732629d: download_add rejects the all-zero hash as an input error ... *)
+  if bytes_eqb ih zero_hash then LErr EInput else
+  (* ... so tracker::Manager::add_controller's internal_error on it (reached through
+     DownloadWrapper::initialize -> DownloadMain::post_initialize) is dead code *)
   if bytes_eqb ih zero_hash then LErr EInternal else
   do _ <- parse_tracker m;
   LOk (mkDl name multi priv meta cs total chunks pieces root ih files).
